@@ -23,6 +23,12 @@ frame*; it propagates out of the library call like any exception.  After the fir
 is extended by GRACE steps at a time and raises again each time that allowance is used up, so that
 ``finally`` blocks may run but a loop that swallows BaseException is still stopped.
 
+Measured on the pinned tree (python 3.12.1, ~960 code objects): enumerating + registering 7 ms once per
+process; switching the events on and off 1.6 ms per ``with`` block (amortised by ``hold()``); 0.35-0.5 us per
+step while counting (KDTree build of 1500 points: 8.8 ms -> 11.4 ms for 5365 steps; 20-NN query: 4.0 ms ->
+6.9 ms for 8245 steps, i.e. 1.3x-1.7x on pure-Python-heavy calls); nothing outside.  ``KDTree(np.zeros((12,3)), max_leaf_size=5)`` - which never
+returns - is stopped at exactly the same step every time (limit + 1), e.g. after 25041 steps in 65 ms.
+
 Outside a ``with`` block the local events are switched off again (code objects run uninstrumented:
 zero overhead) unless a ``hold()`` block is open (see there).  One budget at a time: nesting raises
 RuntimeError (a harness error).
@@ -203,8 +209,13 @@ class StepBudget:
 
     def __init__(self, limit=None):
         self.limit = (1 << 62) if limit is None else int(limit)
-        self.steps = 0
+        self._steps = 0
         self.tripped = 0
+
+    @property
+    def steps(self):
+        """steps consumed so far (live inside the block, final after it)"""
+        return _st[0] if _active is self else self._steps
 
     @property
     def exceeded(self):
@@ -216,7 +227,7 @@ class StepBudget:
         if _active is not None:
             raise RuntimeError("StepBudget is not re-entrant: one budget at a time")
         _active = self
-        self.steps = 0
+        self._steps = 0
         self.tripped = 0
         _st[0] = 0
         _st[1] = self.limit
@@ -228,7 +239,7 @@ class StepBudget:
 
     def __exit__(self, et, ev, tb):
         global _active, _enabled
-        self.steps = _st[0]
+        self._steps = _st[0]
         _st[1] = 1 << 62
         _active = None
         if _enabled and _holds == 0:
